@@ -33,20 +33,33 @@ G = 9.80665
 
 @st.composite
 def profile(draw, nf):
-    cls = draw(st.sampled_from(["levels", "unimodal", "multimodal", "flat_top", "monotone", "top_bins", "boundary_high", "zero", "tie"]))
+    cls = draw(st.sampled_from(["levels", "unimodal", "multimodal", "flat_top", "monotone", "top_bins", "boundary_high", "zero", "tie", "near_tie", "barely"]))
     L = draw(st.integers(2, 9))
+    fine = []
     if cls == "levels":
         S = draw(st.lists(st.integers(0, L), min_size=nf, max_size=nf))
     elif cls == "unimodal":
         p = draw(st.integers(1, nf - 2))
         S = [max(0, 20 - 3 * abs(i - p) - draw(st.integers(0, 2))) for i in range(nf)]
         S[p] = 25
-    elif cls in ("multimodal", "tie"):
+    elif cls in ("multimodal", "tie", "near_tie"):
         S = [draw(st.integers(0, 3)) for _ in range(nf)]
         k = draw(st.integers(2, 3))
         pos = sorted(set(draw(st.lists(st.integers(1, nf - 2), min_size=k, max_size=k))))
         for j, p in enumerate(pos):
-            S[p] = 10 if cls == "tie" else 10 + draw(st.integers(0, 2))
+            S[p] = 10 if cls in ("tie", "near_tie") else 10 + draw(st.integers(0, 2))
+        if cls == "near_tie":
+            # equal peaks told apart only below single-precision resolution (float64 data): relative steps of 2^-30
+            fine = [[p, draw(st.integers(-3, 3))] for p in pos]
+    elif cls == "barely":
+        # a strict interior maximum that exceeds an equal neighbour by 2^-30 relative (float64 data)
+        S = [draw(st.integers(0, 2)) for _ in range(nf)]
+        p = draw(st.integers(1, nf - 2))
+        S[p] = 12
+        side = draw(st.sampled_from([-1, 1, 0]))
+        for q in ([p - 1, p + 1] if side == 0 else [p + side]):
+            S[q] = 12
+        fine = [[p, draw(st.integers(1, 3))]]
     elif cls == "flat_top":
         S = [draw(st.integers(0, 2)) for _ in range(nf)]
         if nf >= 5:
@@ -71,7 +84,7 @@ def profile(draw, nf):
         S[draw(st.sampled_from([0, nf - 1]))] = 30
     else:
         S = [0] * nf
-    return dict(cls=cls, S=[int(x) for x in S], rs=draw(st.integers(0, 2**31 - 1)), amp=draw(st.sampled_from([2.0**-10, 0.125, 1.0, 8.0])))
+    return dict(cls=cls, S=[int(x) for x in S], rs=draw(st.integers(0, 2**31 - 1)), amp=draw(st.sampled_from([2.0**-10, 0.125, 1.0, 8.0])), fine=fine)
 
 
 @st.composite
@@ -86,8 +99,9 @@ def peak_case(draw):
     return dict(fg=fg, dg=dg, dims=dims, profiles=profs, dtype=draw(st.sampled_from(["float64", "float32"])), lived=draw(gen.lived()))
 
 
-def build_profile(p, nf, nd):
-    """Integer matrix E[f, d] whose row sums are exactly M*S[f] (M = nd keeps compositions non-trivial)."""
+def build_profile(p, nf, nd, fine=False):
+    """Integer matrix E[f, d] whose row sums are exactly M*S[f] (M = nd keeps compositions non-trivial). With `fine`
+    (float64 data only) listed rows are multiplied by 1 + k 2^-30: exact in double precision, invisible in single."""
     rs = np.random.RandomState(p["rs"] % (2**31 - 1))
     E = np.zeros((nf, nd))
     for i, s in enumerate(p["S"]):
@@ -97,6 +111,9 @@ def build_profile(p, nf, nd):
         elif tot > 0:
             pv = rs.dirichlet(np.ones(nd) * 0.7)
             E[i] = rs.multinomial(tot, pv)
+    if fine:
+        for i, k in p.get("fine") or []:
+            E[i] = E[i] * (1.0 + k * 2.0**-30)
     return E * p["amp"]
 
 
@@ -112,7 +129,7 @@ def build(case):
     npos = int(np.prod(shape)) if shape else 1
     arr = np.zeros((npos, nf, nd), dtype=case["dtype"])
     for p in range(npos):
-        arr[p] = build_profile(case["profiles"][p % len(case["profiles"])], nf, nd)
+        arr[p] = build_profile(case["profiles"][p % len(case["profiles"])], nf, nd, fine=case["dtype"] == "float64")
     if len(case["profiles"]) > npos:
         raise ValueError("more profiles than positions")
     template = gen.build_dataarray(fg, dg, [dict(kind="zero", rs=0, amp=1.0)], dims, dtype=case["dtype"])
@@ -205,6 +222,10 @@ def check_peaks(case, ctx):
             ip = cands[0]
             if not (_f32close(val("fp"), f[ip]) or _f32close(val("fp"), f32[ip])):
                 raise Violation("fp", "fp(smooth=False)=%r, peak frequency %r" % (val("fp"), f[ip]))
+            if min(S[ip] - S[ip - 1], S[ip] - S[ip + 1]) < 1e-6 * S[ip]:
+                # the parabola through a peak this flat is ill-conditioned: only the discrete choice is judged
+                ctx.label("barely-standing-peak(discrete only)")
+                continue
             v64 = vertex(f[ip - 1], f[ip], f[ip + 1], S[ip - 1], S[ip], S[ip + 1])
             v32 = vertex(f32[ip - 1], f32[ip], f32[ip + 1], S[ip - 1], S[ip], S[ip + 1])
             lo, hi = min(1 / v64, 1 / v32), max(1 / v64, 1 / v32)
@@ -269,7 +290,7 @@ def check_peaks(case, ctx):
                     raise Violation(name, "%s=%r, peak density E(fp)=%r over PM(fp)=%r gives %r at %s; E(f)=%s" % (name, val(name), S[ip], epm, want, where, S.tolist()))
         if has_dir:
             col = E.sum(axis=0)
-            best = np.nonzero(col == col.max())[0]
+            best = np.nonzero(col >= col.max() * (1 - 1e-13))[0]
             dpv = val("dp")
             if not any(_f32close(dpv, float(np.float32(dirs[j])), 1e-7) for j in best):
                 raise Violation("dp", "dp=%r, frequency-summed spectrum is largest at directions %s at %s" % (dpv, [dirs[j] for j in best], where))
